@@ -1,5 +1,7 @@
 (* C02 — shape of the generated cases and the two executable verdicts. No proofs. *)
 From VLib Require Import CaseLib.
+From VLib Require GoSem.
+From C02 Require GenCase.
 From C02 Require Export Model ModelTx ModelSealed ModelTxStep.
 Open Scope N_scope.
 
@@ -149,7 +151,12 @@ Inductive case :=
 | CActive (c : list doc) (qs : list squery)
 (* a real SEALED fraction (ipb = consts.IDsPerBlock, cap = consts.LIDBlockCap), or the sealed LID path built by the
    real block generator with a SMALL capacity cap (the ID side then is the active index: any ipb may be modelled) *)
-| CSealed (ipb cap : N) (c : list doc) (qs : list squery).
+| CSealed (ipb cap : N) (c : list doc) (qs : list squery)
+(* gen-<func> (validation of the translator go2coq): the REAL Go function number fn (GenCase.gen_eval) was called
+   on args and returned impl (or panicked); the GENERATED definition of Gen.v is evaluated on the same arguments *)
+| CGo (fn : N) (args : list (list Z)) (impl : GoSem.gres).
+Notation GVal := GoSem.GVal (only parsing).
+Notation GPanic := GoSem.GPanic (only parsing).
 
 Definition case_agrees (c : case) : bool :=
   match c with
@@ -174,6 +181,7 @@ Definition case_agrees (c : case) : bool :=
   | CSealed ipb cap c qs =>
       let p := prepare c in let sp := sprepare ipb cap c in
       forallb (fun s => sq_agrees p s && sq_agrees_sealed sp s) qs
+  | CGo fn args impl => GoSem.gres_eqb (GenCase.gen_eval fn args) impl
   end.
 
 (* the LIDs selected by [from,to] are exactly lo..hi: positions (from 1) of the table whose MID is in range *)
@@ -201,6 +209,7 @@ Definition case_spec_ok (c : case) : bool :=
       list_eqb N.eqb (range_positions from to 1 (table c)) (iota lo (N.to_nat (hi + 1 - lo)))
   | CActive c qs => forallb (sq_spec_ok c) qs
   | CSealed _ _ c qs => forallb (sq_spec_ok c) qs
+  | CGo _ _ _ => true   (* translator validation: correspondence only *)
   end.
 
 Definition diff_indices (l : list case) : list nat := bad_indices (fun c => negb (case_agrees c)) l.
